@@ -11,7 +11,7 @@ ASSUMPTIONS = [
     "cycle T - pretrigger + 1 (T = cycle in which the trigger strobe is sampled high); one reading must explain the "
     "whole capture, nothing else is accepted",
     "inputs before the first simulated cycle are 0 (the reset value of the pre-trigger delay registers)",
-    "extra triggers are placed strictly inside the capture (cycles T+1 .. T+depth-1); a new capture is requested only "
+    "extra triggers are placed strictly inside the capture (cycles T+1 .. T+depth, i.e. every cycle in which sampling is high); a new capture is requested only "
     ">= 2 cycles after the previous one must have completed",
     "read-back: captured_sample_number is held for two cycles and captured_sample is taken in the second one (read "
     "latency of 0 or 1 cycle)",
@@ -60,7 +60,7 @@ class IlaSub(Sub):
             capture = st.fixed_dictionaries(dict(
                 lead=st.integers(0, 12),                       # cycles before the trigger
                 width=weighted([(1, 4), (2, 1), (3, 1)]),      # trigger strobe width
-                extra=st.lists(st.integers(1, max(1, depth - 1)), max_size=3),   # extra triggers at T+x
+                extra=st.lists(st.one_of(st.integers(1, max(1, depth)), st.just(depth)), max_size=3),   # extra triggers at T+x (T+depth = last sampling cycle)
                 order=st.sampled_from(["up", "down", "stride"]),
                 seed=st.integers(0, 10 ** 6),
             ))
@@ -96,7 +96,7 @@ class IlaSub(Sub):
             for _ in range(cap["lead"]):
                 emit()
             T = emit(trigger=1)
-            extras = sorted({x for x in cap["extra"] if 1 <= x <= depth - 1})
+            extras = sorted({x for x in cap["extra"] if 1 <= x <= depth})
             trig_cycles = set(range(1, cap["width"])) & set(range(1, depth)) | set(extras)
             # capture + completion slack
             for k in range(1, depth + 1 + COMPLETE_SLACK + 1):
